@@ -1,7 +1,7 @@
 """Property registry: which contract modules serve which property, and what
 each claim leaves unverified (text copied into every evidence file)."""
 
-ALL_MODULES = ["contracts.c17", "contracts.c12", "contracts.c13", "contracts.c18", "contracts.c09", "contracts.c05", "contracts.c16", "contracts.c04", "contracts.c02", "contracts.c11"]
+ALL_MODULES = ["contracts.c17", "contracts.c12", "contracts.c13", "contracts.c18", "contracts.c09", "contracts.c05", "contracts.c16", "contracts.c04", "contracts.c02", "contracts.c11", "contracts.c19"]
 
 SPECS = {
     "C17": {
@@ -66,5 +66,12 @@ SPECS = {
         "level_note": "Trusted: operator first-versions from the installed onnx.defs; expressions recognised as 'the opset' denote the declared opset; IRContext.__init__ stores its arguments (bound with the real signature). Attribute/type-constraint changes of operators revised after opset 21, Loop/If body contexts (make_subgraph_context), numeric agreement across opsets and ORT loading are not covered.",
         "design_ref": "DESIGN.md §4.11",
         "unverified_part": "operators that exist at 21 but changed signature later (69 operators), builder_reduce_with_axes axes-as-input table, make_subgraph_context (Loop/If bodies), numeric equality across opsets, loading in ONNX Runtime.",
+    },
+    "C19": {
+        "modules": ALL_MODULES,
+        "level_text": "Partial claim. (1) For every MonkeyPatchSpec of every registered plugin (305 pairs on this tree) the substitute is obtained by calling the real make_value(original) and 'every call form the original binds is bound by the substitute' is decided by z3 over an integer number of positionals and one Boolean per keyword name: all call forms at once, no sampling. 49 pairs are refuted; each is a known finding identified by its exact difference (e.g. fori_loop without unroll) and re-confirmed with inspect.Signature.bind on the real objects on every run; any other or additional incompatibility is a new violation. (2) For the three hand-written *args/**kwargs substitutes every call form accepted by the original's signature is enumerated (complete for the signature) and the wrapper body is executed symbolically with distinct argument tokens: every supplied token reaches the primitive bind, the original, or the returned closure.",
+        "level_note": "Trusted: inspect.signature of the installed library versions; python call-binding rules as encoded in contracts/c19.binds; 'forwarded' means the token reaches some external call or the result (role correctness of a forwarded argument is not checked). That a forwarded parameter is lowered with the same meaning is C01 territory.",
+        "design_ref": "DESIGN.md §4.19",
+        "unverified_part": "semantic use of forwarded parameters (same meaning), named-parameter wrappers that accept a parameter and never read it, FunctionPlugin._make_patch_fn static/traced kwargs partition, abstract_eval delegation.",
     },
 }
